@@ -65,6 +65,14 @@ def must_facts(g, facts_fn):
             t = g.blocks[b][-1]; succs = g.succs[b]
             for k, s_ in enumerate(succs):
                 f = set(IN[b])
+                if t.op == 'switch':
+                    x = vk(strip_ext(g, t.ops[0]))
+                    if x is not None:
+                        tg = [c for c, tb in t.d['cases'] if tb == s_]
+                        if s_ == t.d['default'] and not tg:
+                            for c, _ in t.d['cases']: f.add(('ne', x, c))
+                        elif len(tg) == 1 and s_ != t.d['default']:
+                            f.add(('lt', x, tg[0] + 1)); f.add(('eq', x, tg[0]))
                 if t.op == 'br' and len(t.ops) == 3 and succs[0] != succs[1]:
                     outcome = (k == 0)
                     ci = inst_of(g, t.ops[0])
@@ -93,36 +101,45 @@ def must_facts(g, facts_fn):
 
 
 def counter_invariant(g, phi, IN, EDGE):
-    """for an integer phi with constant init and a +1 back-edge value: returns ('strict'|'weak', K) meaning phi < K / phi <= K at the header"""
+    """for an integer loop variable C (a phi): if every value flowing back into it is C itself or C+1, the start is a constant, and each C+1 is
+    guarded (must-dataflow facts on the back edge or at the increment) by a comparison with a constant K, returns ('strict', K) meaning C < K at the
+    header, or ('weak', K) meaning C <= K"""
     if phi.op != 'phi': return None
-    init = None; step = None; latch = None
-    for v, pb in phi.d['incoming']:
+    init = []; steps = []     # steps: (add inst, edge (pred block, phi block))
+    seen = set()
+    def feed(v, edge, depth=0):
         c = const_of(v)
-        if c is not None: init = c if init is None else None
-        else:
-            a = inst_of(g, v)
-            if a is not None and a.op == 'add' and vk(a.ops[0]) == ('i', phi.id) and const_of(a.ops[1]) == 1:
-                step = a; latch = pb
-            elif a is not None and a.op == 'phi':
-                # value merged through an intermediate phi (e.g. counters carried around an inner loop): follow one level
-                srcs = [inst_of(g, x) for x, _ in a.d['incoming']]
-                if all(s_ is not None and (s_.id == phi.id or (s_.op == 'add' and vk(s_.ops[0]) == ('i', phi.id) and const_of(s_.ops[1]) == 1)) for s_ in srcs):
-                    return None
-            else:
-                return None
-    if init is None or step is None: return None
-    facts = EDGE.get((latch, phi.bb), set()) | (IN.get(step.bb) or set())
-    best = None
-    for f in facts:
-        if f[0] == 'lt' and f[1] == ('i', step.id): best = ('strict', f[2])          # V < K on the back edge
-        if f[0] == 'ne' and f[1] == ('i', step.id) and init < f[2]: best = best or ('strict', f[2])
-    if best: return best if init < best[1] else None
-    for f in (IN.get(step.bb) or set()):
-        if f[0] == 'lt' and f[1] == ('i', phi.id) and init <= f[2]: return ('weak', f[2])      # incremented only while C < K
-    for f in (IN.get(step.bb) or set()):
-        # incremented only while C != K, counting up from init <= K by one: C <= K at the header (induction), C < K where C != K holds
-        if f[0] == 'ne' and f[1] == ('i', phi.id) and init <= f[2]: return ('weak', f[2])
-    return None
+        if c is not None: init.append(c); return True
+        k = vk(v)
+        if k == ('i', phi.id): return True                     # unchanged around the loop
+        a = inst_of(g, v)
+        if a is None or depth > 4: return False
+        if a.op == 'add' and vk(a.ops[0]) == ('i', phi.id) and const_of(a.ops[1]) == 1:
+            steps.append((a, edge)); return True
+        if a.op == 'phi' and a.id not in seen:
+            seen.add(a.id)
+            return all(feed(x, (pb, a.bb), depth + 1) for x, pb in a.d['incoming'])      # facts are looked up on the edge into the merging phi
+        return False
+    for v, pb in phi.d['incoming']:
+        if not feed(v, (pb, phi.bb)): return None
+    if len(set(init)) != 1 or not steps: return None
+    init = init[0]
+    kinds = []
+    for step, edge in steps:
+        facts = set(EDGE.get(edge, set())) | (IN.get(step.bb) or set())
+        best = None
+        for f in facts:
+            if f[0] == 'lt' and f[1] == ('i', step.id): best = ('strict', f[2])          # C+1 < K on the way back
+            if f[0] == 'ne' and f[1] == ('i', step.id) and init < f[2]: best = best or ('strict', f[2])
+        if best and init < best[1]: kinds.append(best); continue
+        got = None
+        for f in (IN.get(step.bb) or set()):
+            if f[0] in ('lt', 'ne') and f[1] == ('i', phi.id) and init <= f[2]: got = ('weak', f[2])      # incremented only while C < K / C != K
+        if got: kinds.append(got); continue
+        return None
+    K = max(k for _, k in kinds)
+    if all(kd == 'strict' for kd, _ in kinds): return ('strict', K)
+    return ('weak', K)
 
 
 def _index_from_writer(P, g, gep, S):
